@@ -93,6 +93,7 @@ func C03(c *Ctx) {
 	r.Assumptions = []string{"C20-b/d tie pigeon.go to the template and to grammar/pigeon.peg", "C02-a: c.pos is the start of the match"}
 	r.Rule("C03-a", "every call ast.New<Node>(pos, …) inside an on<Rule><n> method passes c.astPos() or a local whose only definition is c.astPos(); astPos returns ast.Pos{Line: c.pos.line, Col: c.pos.col, Off: c.pos.offset}")
 	r.Rule("C03-b", "precedence chain Expression→RecoveryExpr→ChoiceExpr→ActionExpr→SeqExpr→LabeledExpr→PrefixedExpr→SuffixedExpr→PrimaryExpr: refs(level i) ∩ chain ⊆ {level i+1} and contains it; refs(PrimaryExpr) ∩ chain = {Expression}, between \"(\" and \")\"")
+	r.Rule("C03-d", "operator-to-node mapping of the grammar actions: & → AndExpr, ! → NotExpr; ? → ZeroOrOneExpr, * → ZeroOrMoreExpr, + → OneOrMoreExpr; # → StateCodeExpr, & → AndCodeExpr, ! → NotCodeExpr; the operator rules accept exactly these characters; the operand / code block is stored in the constructed node; the recovery chain is built left-nested (Expr = chain so far)")
 	r.Rule("C03-c", "RuleDefOp = {\"=\", \"<-\", U+2190, U+27F5}; SingleCharEscape ⊆ {a,b,f,n,r,t,v,\\}; CharClassMatcher.parse consumes x→2, u→4, U→8, octal→2 further digits, equal to the digit references of HexEscape / ShortUnicodeEscape / LongUnicodeEscape / OctalEscape")
 
 	g := c.G()
@@ -221,6 +222,8 @@ func C03(c *Ctx) {
 		}
 		r.Check(okParen, "C03-b", "A.pigeon.go:PrimaryExpr-group", "", "pigeon.go", `Expression re-entered only as "(" __ Expression __ ")"`, "PrimaryExpr re-enters Expression outside a parenthesised group")
 	}
+	// ---- d
+	c03Operators(c, g)
 	// ---- c
 	if op := ruleExprOfLiteral(root, "RuleDefOp"); op != nil {
 		var ops []string
@@ -352,4 +355,166 @@ func C03(c *Ctx) {
 			r.Bad("C03-c", "G.ast.CharClassMatcher.parse:digits-of-\\0", "", "ast/ast.go", "octal lead digits are not treated alike")
 		}
 	}
+}
+
+// c03Operators checks the operator -> constructor mapping of the prefix / suffix / semantic-predicate actions.
+func c03Operators(c *Ctx, g *load.G) {
+	r := c.R
+	root := g.Pkg("")
+	opsOf := func(rule string) []string {
+		e := ruleExprOfLiteral(root, rule)
+		var out []string
+		if e == nil {
+			return nil
+		}
+		for _, l := range nodesOfType(root, e, "litMatcher") {
+			if v, ok := litField(root, l, "val"); ok {
+				out = append(out, v)
+			}
+		}
+		for _, cm := range nodesOfType(root, e, "charClassMatcher") {
+			if v, ok := litField(root, cm, "val"); ok {
+				for _, ch := range strings.Trim(v, "[]") {
+					out = append(out, string(ch))
+				}
+			}
+		}
+		sort.Strings(out)
+		return out
+	}
+	type spec struct {
+		rule, opRule string
+		want         map[string]string // operator -> constructor
+		child        string            // field that must receive the operand
+	}
+	for _, sp := range []spec{
+		{"PrefixedExpr", "PrefixedOp", map[string]string{"&": "NewAndExpr", "!": "NewNotExpr"}, "Expr"},
+		{"SuffixedExpr", "SuffixedOp", map[string]string{"?": "NewZeroOrOneExpr", "*": "NewZeroOrMoreExpr", "+": "NewOneOrMoreExpr"}, "Expr"},
+		{"SemanticPredExpr", "SemanticPredOp", map[string]string{"#": "NewStateCodeExpr", "&": "NewAndCodeExpr", "!": "NewNotCodeExpr"}, "Code"},
+	} {
+		fd := load.FuncDecl(root, "current", "on"+sp.rule+"2")
+		if fd == nil {
+			fd = load.FuncDecl(root, "current", "on"+sp.rule+"1")
+		}
+		construct := "A.pigeon.go:" + sp.rule + ":operator-mapping"
+		if fd == nil {
+			r.Unk("C03-d", construct, "", "pigeon.go", "action method of "+sp.rule+" not found")
+			continue
+		}
+		ops := opsOf(sp.opRule)
+		var wantOps []string
+		for o := range sp.want {
+			wantOps = append(wantOps, o)
+		}
+		sort.Strings(wantOps)
+		var bad []string
+		if strings.Join(ops, "") != strings.Join(wantOps, "") {
+			bad = append(bad, "rule "+sp.opRule+" accepts {"+strings.Join(ops, " ")+"}, expected {"+strings.Join(wantOps, " ")+"}")
+		}
+		// branches: collect (explicit operator | "default") -> constructor
+		got := map[string]string{}
+		var explicit []string
+		record := func(op string, body ast.Node) {
+			for _, ce := range callsIn(body) {
+				if cn := callName(ce); strings.HasPrefix(cn, "ast.New") {
+					got[op] = strings.TrimPrefix(cn, "ast.")
+				}
+			}
+		}
+		ast.Inspect(fd.Body, func(n ast.Node) bool {
+			switch x := n.(type) {
+			case *ast.IfStmt:
+				cond := nospace(x.Cond)
+				if i := strings.Index(cond, `=="`); i > 0 && strings.HasSuffix(cond, `"`) {
+					op := cond[i+3 : len(cond)-1]
+					explicit = append(explicit, op)
+					record(op, x.Body)
+					return false
+				}
+			case *ast.CaseClause:
+				if x.List == nil {
+					record("default", x)
+				} else {
+					for _, e := range x.List {
+						op := strings.Trim(nospace(e), `"`)
+						explicit = append(explicit, op)
+						record(op, x)
+					}
+				}
+				return false
+			}
+			return true
+		})
+		// statements after an if-return chain form the implicit default
+		if _, ok := got["default"]; !ok {
+			var tail []ast.Stmt
+			for _, st := range fd.Body.List {
+				switch st.(type) {
+				case *ast.IfStmt, *ast.SwitchStmt:
+					tail = nil
+				default:
+					tail = append(tail, st)
+				}
+			}
+			for _, st := range tail {
+				record("default", st)
+			}
+		}
+		remaining := []string{}
+		for _, o := range wantOps {
+			seen := false
+			for _, e := range explicit {
+				if e == o {
+					seen = true
+				}
+			}
+			if !seen {
+				remaining = append(remaining, o)
+			}
+		}
+		for _, o := range explicit {
+			if w, ok := sp.want[o]; !ok {
+				bad = append(bad, "branch for unknown operator "+o)
+			} else if got[o] != w {
+				bad = append(bad, fmt.Sprintf("operator %s builds %s, expected %s", o, got[o], w))
+			}
+		}
+		switch len(remaining) {
+		case 0:
+		case 1:
+			if d, ok := got["default"]; !ok || d != sp.want[remaining[0]] {
+				bad = append(bad, fmt.Sprintf("operator %s (default branch) builds %s, expected %s", remaining[0], got["default"], sp.want[remaining[0]]))
+			}
+		default:
+			bad = append(bad, "operators without a branch of their own: "+strings.Join(remaining, " "))
+		}
+		// operand stored
+		nStore := 0
+		ast.Inspect(fd.Body, func(n ast.Node) bool {
+			if as, ok := n.(*ast.AssignStmt); ok && strings.HasSuffix(nospace(as.Lhs[0]), "."+sp.child) {
+				nStore++
+			}
+			return true
+		})
+		if nStore != len(sp.want) {
+			bad = append(bad, fmt.Sprintf("%d of %d constructed nodes receive their %s", nStore, len(sp.want), sp.child))
+		}
+		sort.Strings(bad)
+		r.Check(len(bad) == 0, "C03-d", construct, "", g.Where(fd.Pos()), fmt.Sprintf("%v", sp.want), strings.Join(bad, "; "))
+	}
+	// recovery chain
+	fd := load.FuncDecl(root, "current", "onRecoveryExpr1")
+	if fd == nil {
+		r.Unk("C03-d", "A.pigeon.go:RecoveryExpr:left-nested-chain", "", "pigeon.go", "action method not found")
+		return
+	}
+	txt := ""
+	ast.Inspect(fd.Body, func(n ast.Node) bool {
+		if as, ok := n.(*ast.AssignStmt); ok {
+			txt += nospace(as.Lhs[0]) + "=" + nospace(as.Rhs[0]) + ";"
+		}
+		return true
+	})
+	ok := strings.Contains(txt, "recover=expr.(ast.Expression);") && strings.Contains(txt, "r.Expr=recover;") && strings.Contains(txt, "r.RecoverExpr=sl.([]any)[7].(ast.Expression);") && strings.Contains(txt, "r.Labels=sl.([]any)[3].([]ast.FailureLabel);") && strings.Contains(txt, "recover=r;")
+	r.Check(ok, "C03-d", "A.pigeon.go:RecoveryExpr:left-nested-chain", "", g.Where(fd.Pos()), "each //{…} wraps the chain built so far as its guarded expression", "assignments are ["+txt+"]")
 }
